@@ -140,7 +140,10 @@ func maskUnmarshalText[T ~int32](mask *T, tag int, text string) error {
 		var parsed int64
 		var err error
 		if strings.HasPrefix(part, "0x") || strings.HasPrefix(part, "0X") {
-			parsed, err = strconv.ParseInt(part[2:], 16, 32)
+			var u uint64
+			u, err = strconv.ParseUint(part[2:], 16, 32)
+			//nolint:gosec // the 32 bits of the mask, bit 31 included
+			parsed = int64(int32(uint32(u)))
 		} else {
 			parsed, err = strconv.ParseInt(part, 10, 32)
 			if err != nil {
